@@ -179,6 +179,8 @@ fn scen(spec: RunSpec) -> ScenFut {
                     c.delay_pm = 20;
                     c.body_break_pm = 10;
                     c.fault_budget = d2;
+                    c.outage_pm = 20;
+                    c.outage_budget = 1;
                 }
                 2 => {
                     c.crash_pm = 15;
